@@ -263,6 +263,8 @@ OBJS = {
     "invoice_v2": (lambda: me.InvoiceV2(number="B-2", total=Decimal("20.00")), "m_edge.InvoiceV2"),
     "invoice_none": (lambda: me.InvoiceNone(number="C-3"), "m_edge.InvoiceNone"),
     "stocked": (lambda: me.Stocked(sku=me.Sku("AB-1"), alt=me.Sku("CD-2"), qty=3), "m_edge.Stocked"),
+    "house1": (lambda: s1.House(street=s1.Street(name="a", number=1), streets=[s1.Street(name="b")], owner="o"), "m_same1.House"),
+    "house2": (lambda: s2.House(street=s2.Street(name="a", zip_code="z"), streets=[s2.Street(name="b", zip_code="y")], owner="o"), "m_same2.House"),
     "attrmix": (lambda: me.AttrMix(id="i", lang="en", space="preserve", qualified=4, rest={"{urn:o}x": "1", "plain": "p"}, value=7), "m_edge.AttrMix"),
 }
 # objects whose annotations resolve only with SerializerConfig.globalns: serialized with that configuration only
@@ -440,6 +442,8 @@ _x("hw_stocked", "m_edge.Stocked", """<e:stocked xmlns:e="urn:e" alt="CD-2"><e:s
 _x("hw_noclass_settings1", None, """<Settings1><settings_one_name>x</settings_one_name></Settings1>""")
 _x("hw_noclass_settings2", None, """<Settings2><settings_two_name>x</settings_two_name></Settings2>""")
 _x("hw_holder_settings", "m_edge.Holder", """<e:holder xmlns:e="urn:e" xmlns:xsi="http://www.w3.org/2001/XMLSchema-instance"><e:anything xsi:type="Settings1"><settings_one_name>n</settings_one_name></e:anything><e:more xsi:type="Settings2"><settings_two_name>m</settings_two_name></e:more></e:holder>""")
+_x("hw_house1", "m_same1.House", """<h:house xmlns:h="urn:s1" owner="o"><h:street><h:name>a</h:name><h:number>1</h:number></h:street><h:side><h:name>b</h:name></h:side></h:house>""")
+_x("hw_house2", "m_same2.House", """<h:house xmlns:h="urn:s2" owner="o"><h:street zip_code="z"><h:name>a</h:name></h:street><h:side zip_code="y"><h:name>b</h:name></h:side></h:house>""")
 _x("hw_attrmix", "m_edge.AttrMix", """<e:attrMix xmlns:e="urn:e" xmlns:o="urn:o" id="i" xml:lang="en" xml:space="preserve" e:qualified="4" o:x="1" plain="p"> 7 </e:attrMix>""")
 _x("hw_item_constructs", "m_basic.Item", """<?xml version="1.0"?><!DOCTYPE item [<!ENTITY nm "entity name">]><?pi before?><!-- c --><item xmlns="urn:basic" id="&#49;" xml:lang="en"><?pi inside?><name>&nm; <![CDATA[<cdata>]]> &amp;<!-- in text --> end</name><qty><![CDATA[2]]></qty></item><!-- after --><?pi after?>""")
 _x("hw_item_leapday", "m_basic.Item", """<item xmlns="urn:basic" id="1"><name>leap</name><when>2024-02-29</when><stamp>2024-02-29T10:00:00Z</stamp><at>23:59:59.999</at><took>P1Y2M3DT4H5M6.5S</took></item>""")
@@ -523,6 +527,8 @@ JSON = {
     "js_measure_int": ('{"items": ["7"]}', "m_edge.Measure", None),
     "js_measure_float": ('{"items": ["7.5", "NaN"]}', "m_edge.Measure", None),
     "js_stocked": ('{"sku": "AB-1", "alt": null, "qty": 3}', "m_edge.Stocked", None),
+    "js_house1": ('{"street": {"name": "a", "number": 1}, "side": [], "owner": null}', "m_same1.House", None),
+    "js_house2": ('{"street": {"name": "a", "zip_code": "z"}, "side": [{"name": "b", "zip_code": null}], "owner": null}', "m_same2.House", None),
     "js_attrmix": ('{"id": "i", "lang": "en", "space": null, "qualified": 4, "rest": {"{urn:o}x": "1", "plain": "p"}, "value": 7}', "m_edge.AttrMix", None),
     "js_noclass_thing_w": ('{"w": 5}', None, None),
     "js_noclass_thing_v": ('{"v": "only the local type has this"}', None, None),
